@@ -196,12 +196,41 @@ def shared_instance_state(ctx, facts, rule, rels):
                                    (is_self_attr(n.func.value, an) or norm(n.func.value) == '%s.%s' % (c.name, an))) or \
                                   (isinstance(n, ast.Assign) and any(isinstance(t, ast.Subscript) and (is_self_attr(t.value, an) or norm(t.value) == '%s.%s' % (c.name, an))
                                                                      for t in n.targets))
+                            if hit and isinstance(n, ast.Assign):
+                                # a registry filled with module-level names / literals (class -> symbol class) is the same for every instance: not state
+                                local = {a.arg for a in fn.args.args} | {t.id for x in ast.walk(fn) if isinstance(x, (ast.Assign, ast.For, ast.AugAssign))
+                                                                         for t in ast.walk(x.targets[0] if isinstance(x, ast.Assign) else x.target) if isinstance(t, ast.Name) and isinstance(t.ctx, ast.Store)}
+                                parts = [t.slice for t in n.targets if isinstance(t, ast.Subscript)] + [n.value]
+                                if all(isinstance(y, (ast.Name, ast.Constant)) and not (isinstance(y, ast.Name) and y.id in local) for y in parts):
+                                    hit = False
                             if hit:
                                 found = True
                                 ctx.violation(rule, '%s.%s:class-level:%s' % (c.name, mname, an),
                                               'class-level container `%s.%s` is mutated by %s(): the state is shared by all instances' % (c.name, an, mname),
                                               '%s:%s.%s' % (c.rel, c.name, mname), witness=dict(history='two instances of %s in one process' % c.name))
                                 break
+    # memoising decorators: the result of one call (of one instance, one process history) answers a later call
+    MEMO = ('lru_cache', 'cache', 'cached_property', 'memoize', 'memoized')
+    for lst in facts.classes.values():
+        for c in lst:
+            if c.rel not in rels:
+                continue
+            for mname, fn in c.methods.items():
+                for d in fn.decorator_list:
+                    t = norm(d.func if isinstance(d, ast.Call) else d)
+                    if t.split('.')[-1] in MEMO:
+                        found = True
+                        ctx.violation(rule, '%s.%s:memoised' % (c.name, mname), '%s.%s is memoised (`@%s`): arguments that compare equal but are not the same value (0.0 and -0.0, True and 1, equal-valued '
+                                      'wires) share one cached result, and the cache outlives the instance' % (c.name, mname, t), '%s:%s.%s' % (c.rel, c.name, mname),
+                                      witness=dict(history='call with one of two equal-comparing arguments, then with the other: the second call returns the result of the first'))
+    for (rel, fname), fn in facts.functions.items():
+        if rel in rels:
+            for d in fn.decorator_list:
+                t = norm(d.func if isinstance(d, ast.Call) else d)
+                if t.split('.')[-1] in MEMO:
+                    found = True
+                    ctx.violation(rule, '%s:memoised' % fname, 'function %s is memoised (`@%s`)' % (fname, t), '%s:%s' % (rel, fname),
+                                  witness=dict(history='two calls with equal-comparing but different arguments'))
     if not found:
         ctx.ok(rule, 'instance-isolation', '%d classes: no mutable default argument is stored or mutated, no class-level container is written through an instance' % ncls)
     return ncls
